@@ -369,7 +369,7 @@ func (h *lcHandler) HandleAccountSpend(k *btcec.PublicKey, s *chainntnfs.SpendDe
 	func() {
 		defer func() {
 			if p := recover(); p != nil {
-				err = fmt.Errorf("PANIC: %v", p)
+				err = &lcPanic{v: p}
 			}
 		}()
 		err = h.real.HandleAccountSpend(k, s)
